@@ -139,3 +139,6 @@ fn run_update(changed: &mut HashSet<OwnedDirEntry>, deps: &mut DepsGraph, cache:
         deps.reload(cache.as_any_cache(), key);
     }
 }
+
+#[cfg(kani)]
+include!(concat!(env!("ASSETS_MANAGER_VERIF"), "/incrate/hot_reloading_paths.rs"));
